@@ -22,7 +22,7 @@ def stream_query(prefix, wrap, chunks, oc, eosmode, flush1, cl, check14=0, witne
     hdef = ["C1=%d" % chunks[0], "C2=%d" % chunks[1], "C3=%d" % chunks[2], "OC=%d" % oc, "EOSMODE=%d" % eosmode,
             "FLUSH1=%d" % flush1, "WRAP=%d" % wrap, "KMAX=%d" % kmax, "OUTCAP=%d" % outcap, "CHECK14=%d" % check14, "CHECK05=%d" % check05, "TABLE=%d" % table, "RFC_MAXBLOCKS=8",
             D.cdef("DFL_CLASSES", classes), D.cdef("DFL_TOKLENS", lits), D.cdef("DFL_CLASS_SET", D.STATIC_LIT_CLASSES)]
-    extra = {"collect.0": oc + 2, "one_call.0": n + 2, "wmemset.0": 18, "isal_deflate.0": 4}
+    extra = {"collect.0": oc + 2, "one_call.0": 20, "one_call.1": 20, "one_call.2": 20, "wmemset.0": 18, "isal_deflate.0": 4}
     for i in range(8):
         extra["harness.%d" % i] = kmax + 3
     qid = "%s/%s/i%d-%d-%d/o%d/e%d/f%d/c%s" % (prefix, D.WRAPS[wrap], chunks[0], chunks[1], chunks[2], oc, eosmode, flush1,
